@@ -29,6 +29,7 @@ RULE = (
     "x {pause,defer}x{resume,abort,stop,halt} + 2 suspend variants + abort/stop/halt for each corpus plan (complete for the "
     "tier's corpus); thorough adds ordered request pairs on three plans; plus Hypothesis-generated cases. Non-trivial: a "
     "request arrived in a non-running state or within 3 loop callbacks of a state change. Distinct = canonical JSON."
+    ' Also Pausable detectors whose pause()/resume() hooks fail and motors whose stop() is a coroutine that really suspends.'
 )
 ASSUMPTIONS = [
     "requests arrive at boundaries between event-loop callbacks",
